@@ -401,7 +401,6 @@ func (b *Body) indexSyntax(l *Ledger) {
 	}
 }
 
-
 // isIndexParser: strconv.Atoi, or a library function (string) (int, error) built on it — the
 // token is converted with Atoi and the number returned (after whatever syntax check).
 func (b *Body) isIndexParser(f *ssa.Function) bool {
